@@ -98,6 +98,7 @@ def run_suite_with_contracts(spec):
 def floors(tier):
     k = 1 if tier == "quick" else 20
     return {
+        "second_experiment_interleaved_in_same_process": 100 * k,
         "decided:rung_n>=2": 5000 * k,
         "decided:max_t_stop": 100 * k,
         "decided:non_rung_level": 2000 * k,
@@ -140,8 +141,19 @@ def expand(spec):
     # ... and some of them never report max_t itself but step over it (script validates every k-th epoch of its own,
     # longer schedule): 'resource >= max_t' must still end the trial
     p["overshoot"] = p["strides"] is not None and rng.random() < 0.5
+    # a second, unrelated stopping-type experiment in the same process, its events interleaved with this one's
+    p["bystander"] = rng.random() < 0.15
     p.update({k: v for k, v in spec.items() if k != "seed"})
     return p
+
+
+def _bystander(spec):
+    q = expand({"seed": spec["seed"] * 31 + 977, "bystander": False})
+    q["type"] = "stopping"
+    sched = gen.build_hyperband(gen.build_space(q["space"]), q, seed=(spec["seed"] + 11) % (2**31))
+    vp = {"n_workers": q["n_workers"], "max_t": q["max_t"], "metric": "loss", "resource_attr": "epoch", "policy": q["policy"],
+          "seed": spec["seed"] + 12, "max_trials": q["max_trials"], "max_events": q["max_events"]}
+    return VTuner(Port(sched), vp, gen.Curves(q["curves"], spec["seed"] + 13, q["max_t"] + 4))
 
 
 class Monitor:
@@ -341,7 +353,14 @@ def run_case(spec):
     if p.get("strides"):
         o.count("schedules_with_sparse_reporters")
     with rung_contract(o):
-        vt = VTuner(Port(sched), vp, curves, monitors=[mon]).run()
+        vt = VTuner(Port(sched), vp, curves, monitors=[mon])
+        if p.get("bystander"):
+            try:
+                vt.bystanders.append(_bystander(spec))
+                o.count("second_experiment_interleaved_in_same_process")
+            except Exception:  # noqa: BLE001
+                o.count("bystander_not_built")
+        vt.run()
     if vt.raised:
         o.violate("no_raise", f"raised:{vt.raised[0]}:{vt.raised[1]}", vt.raised)
     for ev in vt.events[-40:]:
